@@ -6,7 +6,9 @@
 EXTENDS Serde, Json, Sequences
 
 CONSTANTS Strata,     \* subset of {"structure", "values", "tops", "roundtrip"}
-          MaxLen      \* maximal number of fields in the structure stratum
+          MaxLen,     \* maximal number of fields in the structure stratum
+          RtMax,      \* round-trip stratum: every shape 0..RtMax x 0..RtMax ...
+          RtExtra     \* ... plus these larger ones, each encoded as 1000 * nc + nr
 
 VARIABLES doc, phase, result, meta
 vars == <<doc, phase, result, meta>>
@@ -24,6 +26,7 @@ MkFields(ks) == [i \in DOMAIN ks |-> F(ks[i][1], BaseVal(ks[i][1], ks[i][2]))]
 \* variant 1 (a different value) is used only for keys that occur more than once, in any position
 VariantOK(ks) == \A i \in DOMAIN ks : ks[i][2] = 1 => \E j \in DOMAIN ks : j # i /\ ks[j][1] = ks[i][1]
 
+ValDims == 0..3 \cup HugeDims \cup BadDims          \* dimension tokens tried in the values stratum
 Orders == { <<"num_cols", "num_rows", "data">>, <<"num_cols", "data", "num_rows">>, <<"num_rows", "num_cols", "data">>,
             <<"num_rows", "data", "num_cols">>, <<"data", "num_cols", "num_rows">>, <<"data", "num_rows", "num_cols">> }
 Prod(a, b) == IF a \in SmallDims /\ b \in SmallDims THEN a * b ELSE 1
@@ -34,7 +37,7 @@ InitStructure == /\ "structure" \in Strata
                  /\ \E ks \in FieldSeqs : VariantOK(ks) /\ doc = [top |-> "object", fields |-> MkFields(ks)]
                  /\ meta = "structure"
 InitValues == /\ "values" \in Strata
-              /\ \E o \in Orders, a \in DimTokens, b \in DimTokens : \E d \in DataTokens(a, b) :
+              /\ \E o \in Orders, a \in ValDims, b \in ValDims : \E d \in DataTokens(a, b) :
                     doc = [top |-> "object",
                            fields |-> [i \in 1..3 |-> F(o[i], IF o[i] = "num_cols" THEN a ELSE IF o[i] = "num_rows" THEN b ELSE d)]]
               /\ meta = "values"
@@ -42,7 +45,8 @@ InitTops == /\ "tops" \in Strata
             /\ \E t \in {"array", "number", "string", "null"} : doc = [top |-> t, fields |-> << >>]
             /\ meta = "tops"
 InitRoundTrip == /\ "roundtrip" \in Strata
-                 /\ \E nc \in 0..3, nr \in 0..3, v \in {"owned", "view"} :
+                 /\ \E sh \in {1000 * c + r : c \in 0..RtMax, r \in 0..RtMax} \cup RtExtra, v \in {"owned", "view"} :
+                    LET nc == sh \div 1000  nr == sh % 1000 IN
                       /\ (nc = 0 <=> nr = 0)
                       /\ doc = IF v = "owned" THEN SerOwned(nc, nr) ELSE SerView(nc, nr)
                       /\ meta = "roundtrip_" \o v
